@@ -152,6 +152,21 @@ package parser
 //@ pred PMaps(p *Parser, a map[string]string, b map[textKey]string, c map[string]int, d map[string]string, e map[string]int) =
 //@   p.constants == a && p.inlineTextsSet == b && p.inlineTextCounts == c && p.inlineMovementsSet == d && p.inlineMovementCounts == e
 
+// ---- hoisting slots (C06): every recorded inline text / moves() points at an existing argument slot of its command ----
+//@ pred TextSlotOK(t impText) = t.command != nil && 0 <= t.argPos && t.argPos < len(t.command.Args)
+//@ pred MoveSlotOK(m impMovement) = m.command != nil && 0 <= m.argPos && m.argPos < len(m.command.Args)
+//@ pred ImpOK(d *impData) = d == nil || ((forall k int :: {d.texts[k]} (0 <= k && k < len(d.texts)) ==> TextSlotOK(d.texts[k]))
+//@     && (forall k int :: {d.movements[k]} (0 <= k && k < len(d.movements)) ==> MoveSlotOK(d.movements[k])))
+
+//@ func (d *impData) add
+//@   modifies d.texts, d.movements
+//@   ensures [C06:slot-add] (old(ImpOK(d)) && ImpOK(other)) ==> ImpOK(d)
+//@ end
+
+//@ func getMovementsKey
+//@   ensures [C06:movkey] result == MovKey(movements)
+//@ end
+
 //@ func ParseFrame
 //@   nobody
 //@   params p
@@ -169,8 +184,14 @@ package parser
 //@   ensures [C20:stack-balanced] result1 == nil ==> (SameStack(p.breakStack, old(p.breakStack)) && SameStack(p.continueStack, old(p.continueStack)))
 //@ end
 
+//@ func (p *Parser) peekTokenIsAutoVar
+//@   ensures [C11:is-autovar] result == (p.peekToken.Type == token.IDENT && indom(p.commandConfig.AutoVarCommands, p.peekToken.Literal))
+//@ end
+
 //@ func (p *Parser) expectPeekVarOrAutoVar
 //@   include ParseFrame
+//@   ensures [C11,C18:autovar-taken] (result3 == nil && old(p.peekToken.Type) != token.VAR) ==> (result0 != nil && result1 != nil)
+//@   ensures [C06:slot] result3 == nil ==> ImpOK(result2)
 //@   ensures [C11,C18:autovar-results] (result3 == nil && result1 != nil) ==> (result0 != nil && fresh(result1))
 //@   ensures [C11,C18:autovar-var] (result3 == nil && result1 == nil) ==> result0 == nil
 //@   ensures [C20:stack-balanced] result3 == nil ==> (SameStack(p.breakStack, old(p.breakStack)) && SameStack(p.continueStack, old(p.continueStack)))
@@ -186,6 +207,7 @@ package parser
 
 //@ func (p *Parser) addImplicitData
 //@   include ParseFrame
+//@   requires [C06:slot] ImpOK(implicitData)
 //@   ensures [C20:stack-balanced] SameStack(p.breakStack, old(p.breakStack)) && SameStack(p.continueStack, old(p.continueStack))
 //@   loopinv [C20:stack-balanced-inv] SameStack(p.breakStack, old(p.breakStack)) && SameStack(p.continueStack, old(p.continueStack))
 //@   modifies p.constants, p.inlineTextsSet, p.inlineTextCounts, p.inlineMovementsSet, p.inlineMovementCounts, allof(ast.CommandStatement.Args)
@@ -193,6 +215,7 @@ package parser
 
 //@ func (p *Parser) addImplicitTexts
 //@   include ParseFrame
+//@   loopinv [C06:slot-inv] forall k int :: {texts[k]} (0 <= k && k < len(texts)) ==> TextSlotOK(texts[k])
 //@   requires [C06:slot] forall k int :: {texts[k]} (0 <= k && k < len(texts)) ==> (texts[k].command != nil && 0 <= texts[k].argPos && texts[k].argPos < len(texts[k].command.Args))
 //@   ensures [C20:stack-balanced] SameStack(p.breakStack, old(p.breakStack)) && SameStack(p.continueStack, old(p.continueStack))
 //@   loopinv [C20:stack-balanced-inv] SameStack(p.breakStack, old(p.breakStack)) && SameStack(p.continueStack, old(p.continueStack))
@@ -201,6 +224,7 @@ package parser
 
 //@ func (p *Parser) addImplicitMovements
 //@   include ParseFrame
+//@   loopinv [C06:slot-inv] forall k int :: {movements[k]} (0 <= k && k < len(movements)) ==> MoveSlotOK(movements[k])
 //@   requires [C06:slot] forall k int :: {movements[k]} (0 <= k && k < len(movements)) ==> (movements[k].command != nil && 0 <= movements[k].argPos && movements[k].argPos < len(movements[k].command.Args))
 //@   ensures [C20:stack-balanced] SameStack(p.breakStack, old(p.breakStack)) && SameStack(p.continueStack, old(p.continueStack))
 //@   loopinv [C20:stack-balanced-inv] SameStack(p.breakStack, old(p.breakStack)) && SameStack(p.continueStack, old(p.continueStack))
@@ -209,31 +233,43 @@ package parser
 
 //@ func (p *Parser) parseScriptStatement
 //@   include ParseFrame
+//@   ensures [C06:slot] result2 == nil ==> ImpOK(result1)
 //@   ensures [C20:stack-balanced] result2 == nil ==> (SameStack(p.breakStack, old(p.breakStack)) && SameStack(p.continueStack, old(p.continueStack)))
 //@   loopinv [C20:stack-balanced-inv] SameStack(p.breakStack, old(p.breakStack)) && SameStack(p.continueStack, old(p.continueStack))
 //@ end
 
 //@ func (p *Parser) parseBlockStatement
 //@   include ParseFrame
+//@   loopinv [C06:slot-inv] impData != nil && fresh(impData) && ImpOK(impData)
+//@   ensures [C06:slot] result2 == nil ==> ImpOK(result1)
 //@   ensures [C20:stack-balanced] result2 == nil ==> (SameStack(p.breakStack, old(p.breakStack)) && SameStack(p.continueStack, old(p.continueStack)))
 //@   loopinv [C20:stack-balanced-inv] SameStack(p.breakStack, old(p.breakStack)) && SameStack(p.continueStack, old(p.continueStack))
 //@ end
 
 //@ func (p *Parser) parseSwitchBlockStatement
 //@   include ParseFrame
+//@   loopinv [C06:slot-inv] impData != nil && fresh(impData) && ImpOK(impData)
+//@   ensures [C06:slot] result2 == nil ==> ImpOK(result1)
 //@   ensures [C20:stack-balanced] result2 == nil ==> (SameStack(p.breakStack, old(p.breakStack)) && SameStack(p.continueStack, old(p.continueStack)))
 //@   loopinv [C20:stack-balanced-inv] SameStack(p.breakStack, old(p.breakStack)) && SameStack(p.continueStack, old(p.continueStack))
 //@ end
 
 //@ func (p *Parser) parseStatement
 //@   include ParseFrame
+//@   ensures [C06:slot] result2 == nil ==> ImpOK(result1)
 //@   ensures [C20:stack-balanced] result2 == nil ==> (SameStack(p.breakStack, old(p.breakStack)) && SameStack(p.continueStack, old(p.continueStack)))
 //@   loopinv [C20:stack-balanced-inv] SameStack(p.breakStack, old(p.breakStack)) && SameStack(p.continueStack, old(p.continueStack))
 //@ end
 
 //@ func (p *Parser) parseCommandStatement
 //@   include ParseFrame
-//@   ensures [C18:cmd-fresh] result2 == nil ==> (result0 != nil && fresh(result0) && len(result0.Args) >= 0)
+//@   loopinv [C06:slot-inv] command != nil && fresh(command) && impData != nil && fresh(impData) && len(command.Args) >= 0 && len(argParts) >= 0
+//@   loopinv [C06:slot-inv] forall k int :: {impData.texts[k]} (0 <= k && k < len(impData.texts)) ==> (impData.texts[k].command == command && 0 <= impData.texts[k].argPos
+//@          && (impData.texts[k].argPos < len(command.Args) || (impData.texts[k].argPos == len(command.Args) && len(argParts) > 0)))
+//@   loopinv [C06:slot-inv] forall k int :: {impData.movements[k]} (0 <= k && k < len(impData.movements)) ==> (impData.movements[k].command == command && 0 <= impData.movements[k].argPos
+//@          && (impData.movements[k].argPos < len(command.Args) || (impData.movements[k].argPos == len(command.Args) && len(argParts) > 0)))
+//@   ensures [C06:slot] result2 == nil ==> ImpOK(result1)
+//@   ensures [C18:cmd-fresh] result2 == nil ==> (result0 != nil && fresh(result0))
 //@   ensures [C20:stack-balanced] result2 == nil ==> (SameStack(p.breakStack, old(p.breakStack)) && SameStack(p.continueStack, old(p.continueStack)))
 //@   loopinv [C20:stack-balanced-inv] SameStack(p.breakStack, old(p.breakStack)) && SameStack(p.continueStack, old(p.continueStack))
 //@ end
@@ -330,6 +366,8 @@ package parser
 
 //@ func (p *Parser) parseMapscriptsStatement
 //@   include ParseFrame
+//@   loopinv [C06:slot-inv] impData != nil && fresh(impData) && ImpOK(impData)
+//@   ensures [C06:slot] result2 == nil ==> ImpOK(result1)
 //@   ensures [C20:stack-balanced] result2 == nil ==> (SameStack(p.breakStack, old(p.breakStack)) && SameStack(p.continueStack, old(p.continueStack)))
 //@   loopinv [C20:stack-balanced-inv] SameStack(p.breakStack, old(p.breakStack)) && SameStack(p.continueStack, old(p.continueStack))
 //@ end
@@ -348,18 +386,22 @@ package parser
 
 //@ func (p *Parser) parseIfStatement
 //@   include ParseFrame
+//@   loopinv [C06:slot-inv] impData != nil && fresh(impData) && ImpOK(impData)
+//@   ensures [C06:slot] result2 == nil ==> ImpOK(result1)
 //@   ensures [C20:stack-balanced] result2 == nil ==> (SameStack(p.breakStack, old(p.breakStack)) && SameStack(p.continueStack, old(p.continueStack)))
 //@   loopinv [C20:stack-balanced-inv] SameStack(p.breakStack, old(p.breakStack)) && SameStack(p.continueStack, old(p.continueStack))
 //@ end
 
 //@ func (p *Parser) parseWhileStatement
 //@   include ParseFrame
+//@   ensures [C06:slot] result2 == nil ==> ImpOK(result1)
 //@   ensures [C20:stack-balanced] result2 == nil ==> (SameStack(p.breakStack, old(p.breakStack)) && SameStack(p.continueStack, old(p.continueStack)))
 //@   loopinv [C20:stack-balanced-inv] SameStack(p.breakStack, old(p.breakStack)) && SameStack(p.continueStack, old(p.continueStack))
 //@ end
 
 //@ func (p *Parser) parseDoWhileStatement
 //@   include ParseFrame
+//@   ensures [C06:slot] result2 == nil ==> ImpOK(result1)
 //@   ensures [C20:stack-balanced] result2 == nil ==> (SameStack(p.breakStack, old(p.breakStack)) && SameStack(p.continueStack, old(p.continueStack)))
 //@   loopinv [C20:stack-balanced-inv] SameStack(p.breakStack, old(p.breakStack)) && SameStack(p.continueStack, old(p.continueStack))
 //@ end
@@ -378,30 +420,36 @@ package parser
 
 //@ func (p *Parser) parseSwitchStatement
 //@   include ParseFrame
+//@   loopinv [C06:slot-inv] resultImpData != nil && fresh(resultImpData) && ImpOK(resultImpData)
+//@   ensures [C06:slot] result3 == nil ==> ImpOK(result2)
 //@   ensures [C20:stack-balanced] result3 == nil ==> (SameStack(p.breakStack, old(p.breakStack)) && SameStack(p.continueStack, old(p.continueStack)))
 //@   loopinv [C20:stack-balanced-inv] SameStack(p.breakStack, old(p.breakStack)) && SameStack(p.continueStack, old(p.continueStack))
 //@ end
 
 //@ func (p *Parser) parseConditionExpression
 //@   include ParseFrame
+//@   ensures [C06:slot] result2 == nil ==> ImpOK(result1)
 //@   ensures [C20:stack-balanced] result2 == nil ==> (SameStack(p.breakStack, old(p.breakStack)) && SameStack(p.continueStack, old(p.continueStack)))
 //@   loopinv [C20:stack-balanced-inv] SameStack(p.breakStack, old(p.breakStack)) && SameStack(p.continueStack, old(p.continueStack))
 //@ end
 
 //@ func (p *Parser) parseBooleanExpression
 //@   include ParseFrame
+//@   ensures [C06:slot] result2 == nil ==> ImpOK(result1)
 //@   ensures [C20:stack-balanced] result2 == nil ==> (SameStack(p.breakStack, old(p.breakStack)) && SameStack(p.continueStack, old(p.continueStack)))
 //@   loopinv [C20:stack-balanced-inv] SameStack(p.breakStack, old(p.breakStack)) && SameStack(p.continueStack, old(p.continueStack))
 //@ end
 
 //@ func (p *Parser) parseRightSideExpression
 //@   include ParseFrame
+//@   ensures [C06:slot] result2 == nil ==> ImpOK(result1)
 //@   ensures [C20:stack-balanced] result2 == nil ==> (SameStack(p.breakStack, old(p.breakStack)) && SameStack(p.continueStack, old(p.continueStack)))
 //@   loopinv [C20:stack-balanced-inv] SameStack(p.breakStack, old(p.breakStack)) && SameStack(p.continueStack, old(p.continueStack))
 //@ end
 
 //@ func (p *Parser) parseLeafBooleanExpression
 //@   include ParseFrame
+//@   ensures [C06:slot] result2 == nil ==> ImpOK(result1)
 //@   ensures [C18:leaf-fresh] result2 == nil ==> (result0 != nil && fresh(result0))
 //@   ensures [C20:stack-balanced] result2 == nil ==> (SameStack(p.breakStack, old(p.breakStack)) && SameStack(p.continueStack, old(p.continueStack)))
 //@   loopinv [C20:stack-balanced-inv] SameStack(p.breakStack, old(p.breakStack)) && SameStack(p.continueStack, old(p.continueStack))
@@ -425,18 +473,23 @@ package parser
 
 //@ func (p *Parser) parsePoryswitchStatement
 //@   include ParseFrame
+//@   ensures [C06:slot] result2 == nil ==> ImpOK(result1)
 //@   ensures [C20:stack-balanced] result2 == nil ==> (SameStack(p.breakStack, old(p.breakStack)) && SameStack(p.continueStack, old(p.continueStack)))
 //@   loopinv [C20:stack-balanced-inv] SameStack(p.breakStack, old(p.breakStack)) && SameStack(p.continueStack, old(p.continueStack))
 //@ end
 
 //@ func (p *Parser) parsePoryswitchStatementCases
 //@   include ParseFrame
+//@   loopinv [C06:slot-inv] impDatas != nil && (forall key string :: {indom(impDatas, key)} indom(impDatas, key) ==> ImpOK(impDatas[key]))
+//@   ensures [C06:slot] result2 == nil ==> (forall key string :: {indom(result1, key)} indom(result1, key) ==> ImpOK(result1[key]))
 //@   ensures [C20:stack-balanced] result2 == nil ==> (SameStack(p.breakStack, old(p.breakStack)) && SameStack(p.continueStack, old(p.continueStack)))
 //@   loopinv [C20:stack-balanced-inv] SameStack(p.breakStack, old(p.breakStack)) && SameStack(p.continueStack, old(p.continueStack))
 //@ end
 
 //@ func (p *Parser) parsePoryswitchStatements
 //@   include ParseFrame
+//@   loopinv [C06:slot-inv] impData != nil && fresh(impData) && ImpOK(impData)
+//@   ensures [C06:slot] result2 == nil ==> ImpOK(result1)
 //@   ensures [C20:stack-balanced] result2 == nil ==> (SameStack(p.breakStack, old(p.breakStack)) && SameStack(p.continueStack, old(p.continueStack)))
 //@   loopinv [C20:stack-balanced-inv] SameStack(p.breakStack, old(p.breakStack)) && SameStack(p.continueStack, old(p.continueStack))
 //@ end
